@@ -65,6 +65,8 @@ func Main(args []string) int {
 		return cmdMapRanges()
 	case "writers":
 		return cmdWriters(args[1:])
+	case "sweepall":
+		return cmdSweepAll(args[1:])
 	case "scenario":
 		return cmdScenario(args[1:])
 	}
@@ -299,4 +301,71 @@ func modelSummary(m map[string]string, max int) string {
 		}
 	}
 	return strings.Join(parts, " ")
+}
+
+// cmdSweepAll: exploration aid. Zero-annotation safety sweep (nil dereference, index, slice bounds, nil-map store,
+// type assertion, division) of every function of the repository, contracts ignored except those of the callees.
+// Prints the obligations that are NOT discharged; nothing here is claimed by any property check - the output is
+// read by hand (a failure is "needs a precondition" far more often than a defect).
+func cmdSweepAll(args []string) int {
+	fs := flag.NewFlagSet("sweepall", flag.ContinueOnError)
+	timeout := fs.Int("timeout", 5000, "solver timeout ms")
+	only := fs.String("pkg", "", "only functions whose canonical name contains this")
+	if err := fs.Parse(args); err != nil {
+		return 2
+	}
+	w, err := loadWorld()
+	if err != nil {
+		fmt.Fprintln(os.Stderr, err)
+		return 2
+	}
+	var names []string
+	for n, f := range w.P.Funcs {
+		if !w.P.InRepo(FuncPkgPath(f)) || len(f.Blocks) == 0 || f.Synthetic != "" && f.Parent() == nil {
+			continue
+		}
+		if *only != "" && !strings.Contains(n, *only) {
+			continue
+		}
+		names = append(names, n)
+	}
+	sort.Strings(names)
+	var items []SolveItem
+	nf, nerr := 0, 0
+	for _, n := range names {
+		f := w.P.Funcs[n]
+		func() {
+			defer func() {
+				if r := recover(); r != nil {
+					nerr++
+					fmt.Printf("GEN-ERROR %s: %v\n", n, r)
+				}
+			}()
+			vc := NewVC(w.P, w.C, f, nil)
+			if err := vc.Generate(); err != nil {
+				nerr++
+				fmt.Printf("GEN-ERROR %s: %v\n", n, err)
+				return
+			}
+			nf++
+			for _, o := range vc.Obls {
+				if o.Cover {
+					continue
+				}
+				items = append(items, SolveItem{vc, o})
+			}
+		}()
+	}
+	SolveAll(items, SolveOpts{TimeoutMs: *timeout})
+	bad := 0
+	for _, it := range items {
+		o := it.O
+		if o.Status == "discharged" || o.Status == "cover-ok" {
+			continue
+		}
+		bad++
+		fmt.Printf("%-10s %-14s %s  %s\n", o.Status, o.Kind, o.SrcPos, shortName(o.Func))
+	}
+	fmt.Printf("%d functions swept (%d generation errors), %d safety obligations, %d not discharged\n", nf, nerr, len(items), bad)
+	return 0
 }
